@@ -538,3 +538,69 @@ Theorem C20_source_read_from_file :
     /\ k_default k_read_from_file = (if src_read_from_file_default then 1 else 0)%Z.
 Proof. exact read_from_file_is_step_lemma. Qed.
 Print Assumptions C20_source_read_from_file.
+
+(** ** the ROUTE by which a render is requested (model/SettingsRoute.v): format() / str(),
+       draw() of one frame, EVERY frame of draw(animate=True), every frame of an
+       ImageIterator; both graphics styles; any other style arguments; every history *)
+From TI Require Import model.SettingsRoute proofs.SettingsRouteProofs.
+
+(** "the render method actually used for a render is the effective one unless overridden
+    for that call": the method every frame of every route is rendered with is the documented
+    function of the per-call method if given, else of the effective one *)
+Theorem C20_route_method_used :
+  forall (k : kind) (par : nat -> nat), wf_par par ->
+  forall (icls : nat -> nat) (src : sources) (s : rstyle) (newer : bool) (h : list rop) (i : nat)
+         (ov : option Z) (others : sargs) (r : route) (x : rout),
+    snd (rstep k par icls src (rrun k par h) (route_render s newer i ov others r)) = Some x ->
+    used x = doc_used (match ov with Some m => m | None => spec_inst k par icls (meth_ops h) i end)
+                      (s_animated src i) (route_frame r).
+Proof. exact route_method_used. Qed.
+Print Assumptions C20_route_method_used.
+
+Theorem C20_route_override_wins :
+  forall (k : kind) (par : nat -> nat), wf_par par ->
+  forall (icls : nat -> nat) (src : sources) (s : rstyle) (newer : bool) (h : list rop) (i : nat)
+         (m : Z) (others : sargs) (r : route) (x : rout),
+    applies m (s_animated src i) (route_frame r) = true ->
+    snd (rstep k par icls src (rrun k par h) (route_render s newer i (Some m) others r)) = Some x ->
+    used x = m.
+Proof. exact route_override_wins. Qed.
+Print Assumptions C20_route_override_wins.
+
+Theorem C20_route_effective :
+  forall (k : kind) (par : nat -> nat), wf_par par ->
+  forall (icls : nat -> nat) (src : sources) (s : rstyle) (newer : bool) (h : list rop) (i : nat)
+         (others : sargs) (r : route) (x : rout),
+    applies (spec_inst k par icls (meth_ops h) i) (s_animated src i) (route_frame r) = true ->
+    snd (rstep k par icls src (rrun k par h) (route_render s newer i None others r)) = Some x ->
+    used x = spec_inst k par icls (meth_ops h) i.
+Proof. exact route_effective. Qed.
+Print Assumptions C20_route_effective.
+
+(** the hops forward the per-call method untouched, whatever else the call carries *)
+Theorem C20_route_method_forwarded :
+  forall (s : rstyle) (newer : bool) (r : route) (ov : option Z) (others : sargs),
+    sget KMethod (route_args s newer r (req_args ov others)) = ov.
+Proof. exact route_method_forwarded. Qed.
+Print Assumptions C20_route_method_forwarded.
+
+(** whole histories of settings operations and requests *)
+Theorem C20_route_trace_spec :
+  forall (k : kind) (par : nat -> nat), wf_par par ->
+  forall (icls : nat -> nat) (src : sources) (s : rstyle) (newer : bool) (frames : nat -> nat)
+         (h : list qop),
+    qtrace s newer k par icls src frames h = spec_qtrace k par icls src frames h.
+Proof. exact qtrace_spec. Qed.
+Print Assumptions C20_route_trace_spec.
+
+(** excluded design: 'animated frames ignore the override' (the animation hop rebuilds the
+    style arguments instead of forwarding them) *)
+Theorem C20_route_rebuild_refuted :
+  exists newer i m others r x,
+    let k := k_render_method 2 in
+    applies m true (route_frame r) = true
+    /\ snd (rstep k (parf [0]) (parf [0]) {| s_animated := fun _ => true; s_size := fun _ => 100%Z |}
+                  (rrun k (parf [0]) []) (route_render_rebuild newer i (Some m) others r)) = Some x
+    /\ used x <> m.
+Proof. exact route_rebuild_refuted. Qed.
+Print Assumptions C20_route_rebuild_refuted.
